@@ -507,6 +507,17 @@ impl<E: Endpoint> World<E> {
                 }
             }
         }
+        // C03: the token a 0.6 acceptor hands out in its ConnectAccept is the token the connector then insists on
+        // (an endpoint that silently drops the protection lets every token-less datagram through)
+        if !self.v7 && !panicked && state_of(&before) == "Connecting" {
+            if let Some(t) = fed_txt.as_deref() {
+                let f: Vec<&str> = t.split('|').collect();
+                if f.len() >= 4 && f[0] == "C" && f[3] == "ca" && f[1] != "none" && state_of(&after) == "Online" {
+                    let own = field(&after, "own=").unwrap_or("?").to_string();
+                    o.check(own == f[1], "-", &self.trace, || format!("C03 step {}: ConnectAccept handed out the token {} but the connector goes online with own={}", self.steps, f[1], own));
+                }
+            }
+        }
         let conn_warns: Vec<&String> = out.warns.iter().filter(|w| *w != "p" && *w != "r").collect();
         let res = if panicked { "panic".to_string() } else {
             format!("res={} sent={} ev={} warn={} tick={} fp={}",
